@@ -119,7 +119,12 @@ func (f *Filter) spl(root bool) string {
 	case "phrase":
 		return splQuote(f.Text)
 	case "not":
-		return "NOT " + f.Kids[0].spl(false)
+		// always parenthesised: how NOT binds relative to AND/OR in the search grammar is not relied on
+		s := "NOT (" + f.Kids[0].spl(true) + ")"
+		if !root {
+			s = "(" + s + ")"
+		}
+		return s
 	case "and", "or":
 		parts := make([]string, len(f.Kids))
 		for i, k := range f.Kids {
@@ -364,6 +369,11 @@ func valueText(v Val) string {
 func EvalTerm(flat Flat, extraTexts []string, text string) Tri {
 	lt := strings.ToLower(text)
 	if !isPlainASCII(text) || text == "" {
+		return DontCare
+	}
+	if _, err := strconv.ParseFloat(strings.TrimSpace(text), 64); err == nil || lt == "true" || lt == "false" {
+		// a bare number / boolean word is searched as a value of that type across columns: whether
+		// the text "12" matches it is not stated
 		return DontCare
 	}
 	sub := false
